@@ -31,6 +31,7 @@ type c12Tamper struct {
 	// live prefix into spare capacity, 2 in place behind a live prefix (dst = pkt[:hdr], ciphertext = pkt[hdr:]),
 	// 3 same and the prefix is the associated data (the packet header)
 	Layout int `json:"l,omitempty"`
+	Live   bool `json:"live,omitempty"` // kind 0 only: presented to the session's OWN opener (not to a clone): the session goes on after a rejected message, as the specification's instance does
 }
 
 type c12Case struct {
@@ -145,6 +146,8 @@ func c12Run(c c12Case, v *vlib.Verdict) {
 	openerI, _ := NewSANSE(key)
 	sealer, opener := sealerI.(*sanse), openerI.(*sanse)
 	rs := &ref.Sanse{Key: key}
+	ro := &ref.Sanse{Key: key} // reference instance that sees exactly what the real opener sees, rejected messages included
+	liveRejects := 0
 	crossesBlock := false
 	aliased := false
 	rejectedInLayout := false
@@ -282,7 +285,11 @@ func c12Run(c c12Case, v *vlib.Verdict) {
 			return
 		}
 		// ---- tampered copies must be rejected (each on a clone of the opener's state)
+		replaced := false // a forged copy was presented to the session's own opener IN PLACE of this message
 		for _, tm := range c.Tampers {
+			if replaced {
+				break
+			}
 			if tm.Msg != i {
 				continue
 			}
@@ -324,6 +331,16 @@ func c12Run(c c12Case, v *vlib.Verdict) {
 				}
 			}
 			cl := c12Clone(opener)
+			if tm.Live && tm.Kind == 0 && len(ct) >= TagSize {
+				// the session's own opener processes the forged message; so does the reference instance
+				cl = opener
+				if _, ok := ro.Unwrap(tad, ct[:len(ct)-TagSize], ct[len(ct)-TagSize:]); ok {
+					v.Inconclusive = "the reference accepts a forged message (2^-256 event or a reference defect)"
+					return
+				}
+				liveRejects++
+				replaced = true
+			}
 			accepted, n, damaged := c12OpenForged(cl, tm.Layout, ct, tad)
 			if accepted {
 				v.Failf("C12:tamper-accepted:"+region, "msg %d (p %d, a %d): Open accepted a message with altered %s (bit %d, layout %d), returned %d bytes", i, m.PLen, m.ALen, region, tm.Bit, tm.Layout, n)
@@ -336,6 +353,9 @@ func c12Run(c c12Case, v *vlib.Verdict) {
 			if tm.Layout != 0 {
 				rejectedInLayout = true
 			}
+		}
+		if replaced {
+			continue // the genuine message never reaches this opener
 		}
 		// ---- genuine open in the requested layout (the associated data is handed over as a copy and compared afterwards)
 		var opened []byte
@@ -414,6 +434,26 @@ func c12Run(c c12Case, v *vlib.Verdict) {
 			v.Failf("C12:open-modified-input", "msg %d: Open modified its associated-data argument (oalias %d)", i, m.OAlias)
 			return
 		}
+		wantP, wantOK := ro.Unwrap(ad, want[:m.PLen], want[m.PLen:])
+		if !wantOK {
+			// only possible after the opener processed a forged message: by the specification the two instances are
+			// out of step from then on (except when nothing of the forged message entered the history)
+			if liveRejects == 0 {
+				v.Inconclusive = "the reference rejects a genuine message of an undisturbed session (reference defect)"
+				return
+			}
+			if oerr == nil {
+				v.Failf("C12:session-after-rejection-differs-from-spec:accepts", "msg %d: after %d rejected message(s) on this instance the specification's instance rejects this message, Open accepts it", i, liveRejects)
+				return
+			}
+			v.Label("out-of-step-after-rejection(as-specified)")
+			continue
+		}
+		if oerr != nil && liveRejects > 0 {
+			v.Failf("C12:session-after-rejection-differs-from-spec:rejects", "msg %d (p %d, a %d): after %d rejected message(s) on this instance the specification's instance still accepts this genuine message, Open rejects it: %v", i, m.PLen, m.ALen, liveRejects, oerr)
+			return
+		}
+		_ = wantP
 		if oerr != nil {
 			v.Failf("C12:open-rejects-genuine", "msg %d (keylen %d, p %d, a %d): Open failed on an unmodified message: %v", i, c.KeyLen, m.PLen, m.ALen, oerr)
 			return
@@ -438,6 +478,9 @@ func c12Run(c c12Case, v *vlib.Verdict) {
 	}
 	if rejectedInLayout {
 		v.Label("rejected-open-into-live-buffer")
+	}
+	if liveRejects > 0 {
+		v.Label("session-continues-after-rejected-message")
 	}
 	v.Label("keylen:" + c12KeyClass(c.KeyLen))
 }
@@ -498,6 +541,7 @@ func c12Gen(rec *vlib.Recorder) func(t *rapid.T) c12Case {
 				Bit:    rapid.OneOf(rapid.IntRange(0, 1<<20), rapid.SampledFrom([]int{0, 7, 8, 127, 128, 255, 1599, 1600})).Draw(t, "bit"),
 				Kind:   rapid.SampledFrom([]int{0, 0, 0, 0, 1, 2}).Draw(t, "kind"),
 				Layout: rapid.IntRange(0, 3).Draw(t, "layout"),
+				Live:   rapid.IntRange(0, 5).Draw(t, "live") == 0,
 			}
 		}), 0, 8).Draw(t, "tampers")
 		return c
@@ -589,6 +633,23 @@ func c12KeyRun(c c12KeyCase, v *vlib.Verdict) {
 			v.Failf("C12:key-byte-ignored:"+c12KeyClass(c.KeyLen), "key length %d: changing key byte %d does not change ciphertext or tag", c.KeyLen, c.Index)
 			return
 		}
+		// the same change made IN PLACE in the caller's key buffer (a caller that keeps its key in one array and
+		// re-keys it, as the transport's session state does): the new instance must be the changed key's
+		key[c.Index] ^= 0x80
+		b2, _ := NewSANSE(key)
+		if o3 := b2.Seal(nil, nil, pt, ad); !bytes.Equal(o3, o2) {
+			v.Failf("C12:key-buffer-reuse:"+c12KeyClass(c.KeyLen), "key length %d: after key byte %d was changed in place in the caller's buffer, a new instance does not seal like an instance made from a fresh copy of the changed key", c.KeyLen, c.Index)
+			return
+		}
+		// ... and the earlier instance must not follow the caller's buffer
+		a2, _ := NewSANSE(append([]byte(nil), k2...))
+		_ = a2
+		if o4 := a.Seal(nil, nil, pt, ad); bytes.Equal(o4[:len(pt)], o2[:len(pt)]) && len(pt) > 0 {
+			// (second message of session a: not comparable with o1; it must at least not be the changed key's first message)
+			v.Failf("C12:key-buffer-reuse:"+c12KeyClass(c.KeyLen), "key length %d: an instance made before the caller changed its key buffer in place now seals under the changed key", c.KeyLen)
+			return
+		}
+		key[c.Index] ^= 0x80
 		// and the opener under the other key must reject
 		o, _ := NewSANSE(k2)
 		if _, err := o.Open(nil, nil, o1, ad); err == nil {
